@@ -150,6 +150,7 @@ def run(ctx: common.Run):
         check_views(ctx, cirq, result_mod, recs, shapes, rng)
     check_sampler(ctx, cirq)
     check_sampler_shapes(ctx, cirq)
+    check_simulated_records(ctx, cirq)
     check_processor_sampler(ctx, cirq)
 
 
@@ -394,6 +395,73 @@ def check_sampler_shapes(ctx, cirq):
                     ctx.report_witness(f'sampler:shapes:{name}', f'{name}.run(repetitions={reps}) does not report every key with shape (repetitions, instances, qubits)',
                                        {'lines': [{'circuit': repr(circuit), 'repetitions': reps}], 'impl_out': [got, res.repetitions], 'spec_out': [want, reps], 'theorem_or_correspondence': 'record shapes'})
                     break
+
+
+def check_simulated_records(ctx, cirq):
+    """records of deterministic circuits (X gates and measurements, keys measured once or several times, terminal or not) from every simulator
+    and repetition count: records[key][repetition][instance][qubit] is the bit that instance of the key read - computed here on bits -, and
+    the result survives its JSON round trip whatever memory layout the simulator left the arrays in"""
+    rng = ctx.substream('simulated-records')
+    sims = {'Simulator': lambda: cirq.Simulator(seed=1), 'DensityMatrixSimulator': lambda: cirq.DensityMatrixSimulator(seed=1), 'CliffordSimulator': lambda: cirq.CliffordSimulator(seed=1),
+            'ClassicalStateSimulator': lambda: cirq.ClassicalStateSimulator()}
+    for it in range(20 if ctx.tier == 'quick' else 300):
+        qs = cirq.LineQubit.range(rng.choice([2, 3]))
+        bits = {q: 0 for q in qs}
+        ops, want = [], {}
+        terminal = rng.random() < 0.6
+        pre = [q for q in qs if rng.random() < 0.5]
+        for q in pre:
+            ops.append(cirq.X(q))
+            bits[q] ^= 1
+        for _ in range(rng.randint(2, 5)):
+            key = rng.choice(['a', 'a', 'b'])
+            width = want[key][0].__len__() if key in want else rng.choice([1, 1, 2])
+            t = rng.sample(list(qs), min(width, len(qs)))
+            if key in want and len(t) != len(want[key][0]):
+                continue
+            if not terminal and rng.random() < 0.5:
+                q = rng.choice(qs)
+                ops.append(cirq.X(q))
+                bits[q] ^= 1
+            ops.append(cirq.measure(*t, key=key))
+            want.setdefault(key, []).append([bits[q] for q in t])
+        if it == 0:
+            ops, want = [cirq.X(qs[0]), cirq.measure(qs[0], key='a'), cirq.measure(qs[1], key='a')], {'a': [[1], [0]]}
+        circuit = cirq.Circuit(ops)
+        if not want:
+            continue
+        reps = rng.choice([1, 2, 3, 5])
+        for sname, mk in sims.items():
+            ctx.count('check', 'simulated-records:' + sname)
+            ctx.case(['simulated-records', sname, repr(circuit), reps], any(len(v) > 1 for v in want.values()))
+            rep = {'lines': [{'simulator': sname, 'circuit': repr(circuit), 'repetitions': reps}], 'theorem_or_correspondence': 'records[key][repetition][instance][qubit] (C18 layout)'}
+            try:
+                res = mk().run(circuit, repetitions=reps)
+            except (ValueError, TypeError, NotImplementedError) as e:
+                ctx.count('sim_error', f'{sname}:{type(e).__name__}')
+                continue
+            got = {k: np.asarray(v).astype(int).tolist() for k, v in res.records.items()}
+            exp = {k: [v] * reps for k, v in want.items()}
+            if got != exp:
+                ctx.report_witness('records:simulated', 'the records of a deterministic circuit are not [repetition][instance][qubit] of what each instance read', dict(rep, impl_out=[got], spec_out=[exp]))
+                continue
+            back = cirq.read_json(json_text=cirq.to_json(res))
+            got_b = {k: np.asarray(v).astype(int).tolist() for k, v in back.records.items()}
+            if got_b != exp:
+                ctx.report_witness('records:json', 'a simulated result does not survive its JSON round trip', dict(rep, impl_out=[got_b, {k: dict(c=bool(np.asarray(v).flags['C_CONTIGUOUS'])) for k, v in res.records.items()}], spec_out=[exp]))
+    # user-built records in every memory layout
+    for it in range(20 if ctx.tier == 'quick' else 200):
+        r, i, w = rng.randint(1, 5), rng.randint(1, 3), rng.randint(1, 4)
+        base = np.array([[[rng.randint(0, 1) for _ in range(w)] for _ in range(i)] for _ in range(r)], dtype=np.uint8)
+        layouts = {'C': base.copy(), 'F': np.asfortranarray(base), 'swapaxes-view': np.ascontiguousarray(base.swapaxes(0, 1)).swapaxes(0, 1), 'strided': np.repeat(base, 2, axis=2)[:, :, ::2],
+                   'bool': base.astype(bool), 'int64': base.astype(np.int64)}
+        for lname, arr in layouts.items():
+            ctx.count('check', 'records-layout:' + lname)
+            res = cirq.ResultDict(params=cirq.ParamResolver({}), records={'k': arr})
+            back = cirq.read_json(json_text=cirq.to_json(res))
+            if np.asarray(back.records['k']).astype(int).tolist() != base.astype(int).tolist():
+                ctx.report_witness('records:json', 'records in a non-default memory layout change in the JSON round trip', {'lines': [{'layout': lname, 'records': base.tolist()}], 'impl_out': [np.asarray(back.records['k']).astype(int).tolist()],
+                                   'spec_out': [base.tolist()], 'theorem_or_correspondence': 'C18_pack_unpack (bits in index order)'})
 
 
 def check_processor_sampler(ctx, cirq):
